@@ -50,6 +50,7 @@ type World struct {
 	errorIface  *types.Interface
 	varsMemo    map[*Term][]*Term
 	feasQuery   bool
+	fpMemo      map[*Term]uint32
 }
 
 // InputRec describes one symbolic input created by a vf* call.
@@ -89,17 +90,21 @@ type Run struct {
 	deadlockIsViolation bool
 	syncState map[*value]any
 	lastPanic string
+	schedDependent bool // a scheduling/select choice with more than one option was made
+	dbgLog, parentLog []string
 }
 
 // dec is one recorded decision: the side taken, and for concretisations the value tested.
 type dec struct {
-	b bool
-	v uint64
+	b  bool
+	v  uint64
+	fp uint32 // structural fingerprint of the condition decided here (replay determinism self-check)
 }
 
 type workItem struct {
 	trail   []dec
 	witness Model
+	dbgLog  []string // debug only: the parent's event log up to the fork
 }
 
 func (w *World) globalAddr(g *ssa.Global) *value {
@@ -211,6 +216,34 @@ func (w *World) termVars(t *Term) []*Term {
 	return vs
 }
 
+// fingerprint is a structural hash of t that does not depend on term IDs (which differ between workers).
+func (w *World) fingerprint(t *Term) uint32 {
+	if fp, ok := w.fpMemo[t]; ok {
+		return fp
+	}
+	h := uint32(2166136261)
+	mix := func(x uint32) { h = (h ^ x) * 16777619 }
+	mix(uint32(t.Op))
+	mix(uint32(t.W))
+	mix(uint32(t.K))
+	mix(uint32(t.K >> 32))
+	for i := 0; i < len(t.Name); i++ {
+		mix(uint32(t.Name[i]))
+	}
+	for _, c := range []*Term{t.A, t.B, t.C} {
+		if c != nil {
+			mix(w.fingerprint(c))
+		} else {
+			mix(0x9e3779b9)
+		}
+	}
+	if len(w.fpMemo) > 3_000_000 {
+		w.fpMemo = map[*Term]uint32{}
+	}
+	w.fpMemo[t] = h
+	return h
+}
+
 // query decides pc ∧ extra using only the part of the path condition that shares variables
 // (transitively) with extra; the returned model is the current witness updated on those variables.
 func (w *World) query(extra *Term, wantModel bool) (SatResult, Model) {
@@ -312,6 +345,20 @@ func (w *World) branchV(c *Term, val uint64) bool {
 	}
 	if r.cursor < len(r.trail) {
 		d := r.trail[r.cursor]
+		if fp := w.fingerprint(c); d.fp != fp {
+			msg := fmt.Sprintf("replay divergence at decision %d: recorded fingerprint %08x, now %08x for %s (engine non-determinism)", r.cursor, d.fp, fp, TermString(c, 4))
+			if gDebug {
+				msg += "\nPARENT LOG:\n"
+				for _, l := range r.parentLog {
+					msg += "  " + l + "\n"
+				}
+				msg += "THIS RUN:\n"
+				for _, l := range r.dbgLog {
+					msg += "  " + l + "\n"
+				}
+			}
+			panic(engineError{msg})
+		}
 		r.cursor++
 		r.taken = append(r.taken, d)
 		if d.b {
@@ -337,12 +384,16 @@ func (w *World) branchV(c *Term, val uint64) bool {
 	case ResSat:
 		tr := make([]dec, len(r.taken)+1)
 		copy(tr, r.taken)
-		tr[len(r.taken)] = dec{!side, val}
-		r.newWork = append(r.newWork, workItem{trail: tr, witness: model})
+		tr[len(r.taken)] = dec{!side, val, w.fingerprint(c)}
+		wi := workItem{trail: tr, witness: model}
+		if gDebug {
+			wi.dbgLog = append([]string(nil), r.dbgLog...)
+		}
+		r.newWork = append(r.newWork, wi)
 	case ResUnknown:
 		r.inconclusive = append(r.inconclusive, "branch feasibility unknown: "+TermString(other, 4))
 	}
-	r.taken = append(r.taken, dec{side, val})
+	r.taken = append(r.taken, dec{side, val, w.fingerprint(c)})
 	r.cursor++
 	if side {
 		w.addPC(c)
@@ -427,6 +478,7 @@ type Violation struct {
 	Model   Model
 	Inputs  []InputRec
 	Trail   []dec
+	Sched   bool // depends on scheduler/select/map-order choices: replayed by engine re-execution, not natively
 }
 
 type violationAbort struct{ v *Violation }
